@@ -41,6 +41,7 @@ func runC04(c *Ctx) {
 	fieldSetAgreement(c)
 	funcFieldsSet(c, pkgGraphql)
 	c13GroupIsolated(c)
+	layoutAgreement(c)
 }
 
 // userCallKind classifies a call instruction in generated code as a call into user code.
